@@ -81,6 +81,8 @@ CONT = [
     ("liesel_tr", "RW", ["tau2_transformed"], [0.5]),
     ("liesel_tr", "IWLS", ["tau2_transformed"], [0.8]),
     ("liesel_tr", "IWLS", ["tau2_transformed", "m"], [0.9]),
+    ("liesel_auto", "RW", ["tau2_transformed"], [0.6]),
+    ("liesel_auto", "IWLS", ["tau2_transformed"], [0.8]),
     ("liesel_trc", "RW", ["log_tau"], [0.5]),
     ("liesel_trc", "RW", ["b_transformed"], [0.8]),
 ]
@@ -99,6 +101,7 @@ HAM = [
     ("liesel_tr", "HMC", ["tau2_transformed", "m"], "diag", 0.15),
     ("liesel_tr", "NUTS", ["tau2_transformed"], "id", 0.3),
     ("liesel_trc", "HMC", ["log_tau", "b_transformed"], "id", 0.2),
+    ("liesel_auto", "NUTS", ["tau2_transformed", "m"], "diag", 0.2),
 ]
 
 
@@ -135,11 +138,19 @@ def finite_liesel_model():
     z2 = lsl.param(jnp.int32(0), lsl.Dist(tfd.FiniteDiscrete, outcomes=jnp.array([0, 1, 2], dtype=jnp.int32), probs=jnp.asarray(P_Z2, dtype=jnp.float32)), name="z2")
     loc = lsl.Var(lsl.Calc(lambda a, b: 0.8 * a + 0.5 * b, z1, z2), name="loc")
     y = lsl.obs(jnp.asarray(Y2, dtype=jnp.float32), lsl.Dist(tfd.Normal, loc=loc, scale=1.0), name="y")
-    return lsl.GraphBuilder().add(y).build_model()
+    # z1 also selects the PRIOR scale of another parameter (spike-and-slab style); w stays fixed
+    wscale = lsl.Calc(lambda a: 0.3 + 1.2 * a, z1, _name="wscale")
+    w = lsl.param(jnp.float32(W_FIXED), lsl.Dist(tfd.Normal, loc=0.0, scale=wscale), name="w")
+    return lsl.GraphBuilder().add(y, w).build_model()
+
+
+W_FIXED = 0.9
 
 
 def ref_log_pi_liesel(z1, z2):
     lp = math.log(0.3 if z1 == 1 else 0.7) + math.log(P_Z2[z2])
+    ws = 0.3 + 1.2 * z1
+    lp += -0.5 * (W_FIXED / ws) ** 2 - math.log(ws) - 0.5 * kl.LOG2PI
     m = 0.8 * z1 + 0.5 * z2
     return lp + float(np.sum(-0.5 * (Y2 - m) ** 2 - 0.5 * kl.LOG2PI))
 
@@ -320,6 +331,12 @@ class Target:
             self.state0 = self.model.state
             self.full0 = {p: np.asarray(self.state0[f"{p}_value"].value, dtype=np.float64) for p in kl.TRC_PARAMS}
             self._lp = kl.ref_class_transformed
+        elif model_name == "liesel_auto":
+            self.model = kl.build_auto_transformed_model()
+            self.interface = gs.LieselInterface(self.model)
+            self.state0 = self.model.state
+            self.full0 = {p: np.asarray(self.state0[f"{p}_value"].value, dtype=np.float64) for p in kl.TR_PARAMS}
+            self._lp = kl.ref_auto_transformed
         elif model_name == "liesel_tr":
             self.model = kl.build_transformed_model()
             self.interface = gs.LieselInterface(self.model)
